@@ -27,7 +27,8 @@ func (m PropagateMatchersOptimizer) Optimize(expr parser.Expr) parser.Expr {
 		}
 
 		// TODO(fpetkovski): Investigate support for vector matching on a subset of labels.
-		if binOp.VectorMatching != nil && len(binOp.VectorMatching.MatchingLabels) > 0 {
+		// An empty on() matches on no label at all, which is a subset as well.
+		if binOp.VectorMatching != nil && (len(binOp.VectorMatching.MatchingLabels) > 0 || binOp.VectorMatching.On) {
 			return
 		}
 
